@@ -199,21 +199,45 @@ def s2_excerpts(ctx):
     inner = any(isinstance(a, (ast.For, ast.While)) for y in fi.yields() for a in list(fi.ancestors(y))[1:] if not isinstance(a, ast.FunctionDef)
                 and sum(isinstance(b, (ast.For, ast.While)) for b in fi.ancestors(y)) > 1)
     loops = [f for f in fi.nodes(ast.For)]
-    count_ok = bool(loops) and unparse(loops[0].iter) == 'range(%s)' % fi.params[1] and not inner
+    def bounded(e, depth=0):
+        """True: at most n_excerpts items; False: recognisably more / unbounded; None: not recognised."""
+        e = fi.expand(e)
+        f_ = (dotted(e.func) or '').split('.')[-1] if isinstance(e, ast.Call) else None
+        if f_ == 'range':
+            if Pat().any(['range(%s)' % fi.params[1], 'range(0, %s)' % fi.params[1], 'range(0, %s, 1)' % fi.params[1]], e):
+                return True
+            if Pat().any(['range(%s + E_c)' % fi.params[1], 'range(E_c * %s)' % fi.params[1], 'range(%s)' % fi.params[0]], e):
+                return False
+            return None
+        if f_ in ('count', 'cycle', 'repeat'):
+            return False
+        if depth < 4 and f_ in ('takewhile', 'filter') and len(e.args) == 2:
+            return bounded(e.args[1], depth + 1)
+        if depth < 4 and f_ in ('islice', 'enumerate', 'list', 'tuple', 'iter', 'reversed') and e.args:
+            return bounded(e.args[0], depth + 1)
+        if depth < 4 and isinstance(e, (ast.GeneratorExp, ast.ListComp)) and len(e.generators) == 1:
+            return bounded(e.generators[0].iter, depth + 1)
+        return None
+    cnt = bounded(loops[0].iter) if loops else None
+    count_ok = cnt is True and not inner
     if probs:
         for msg in list(probs)[:3]:
             ctx.violated('C16.S2', fi, msg[:150], 'excerpts: ' + msg)
     else:
         ctx.holds('C16.S2', fi, 'excerpts: end - start <= excerpt_size, end <= n_samples, start(i+1) >= end(i) (%d yielded pairs over all paths)' % pairs, 'excerpts')
-    ctx.check(count_ok, 'C16.S2', fi, loops[0].iter if loops else 'excerpts', 'one excerpt at most for each index in range(n_excerpts)',
-              'the number of excerpts is not bounded by n_excerpts')
+    if count_ok:
+        ctx.holds('C16.S2', fi, 'one excerpt at most for each index in range(n_excerpts)', loops[0].iter)
+    elif cnt is False or (cnt is True and inner) or not loops:
+        ctx.violated('C16.S2', fi, loops[0].iter if loops else 'excerpts', 'the number of excerpts is not bounded by n_excerpts')
+    else:
+        ctx.undecided('C16.S2', fi, 'the iterable of the excerpt loop `%s` was not recognised' % unparse(loops[0].iter)[:60], loops[0].iter)
     for msg in list(und)[:3]:
         ctx.undecided('C16.S2', fi, msg)
     # get_excerpts: whole data when shorter
     ge = repo.func(A, 'get_excerpts')
     data, ne, es = ge.params[:3]
     short = [i for i in ge.nodes(ast.If) if Pat().any(['len(%s) < %s * %s' % (data, ne, es), 'len(%s) <= %s * %s' % (data, ne, es), '%s.shape[0] < %s * %s' % (data, ne, es),
-                                                      '%s.shape[0] <= %s * %s' % (data, ne, es)], i.test)]
+                                                      '%s.shape[0] <= %s * %s' % (data, ne, es)], ge.expand(i.test))]
     if short:
         whole = bool(short[0].body) and isinstance(short[0].body[0], ast.Return) and short[0].body[0].value is not None and Pat().m(data, ge.expand(short[0].body[0].value))
         if whole:
@@ -221,9 +245,9 @@ def s2_excerpts(ctx):
         else:
             ctx.violated('C16.S2', ge, short[0], 'get_excerpts does not return the whole data when it is shorter than requested')
     else:
-        cmp_any = [i for i in ge.nodes(ast.If) if 'len(%s)' % data in unparse(i.test) or '%s.shape' % data in unparse(i.test)]
+        cmp_any = [i for i in ge.nodes(ast.If) if 'len(%s)' % data in unparse(ge.expand(i.test)) or '%s.shape' % data in unparse(ge.expand(i.test))]
         weak = [i for i in cmp_any if Pat().any(['len(%s) < %s' % (data, es), 'len(%s) <= %s' % (data, es), 'len(%s) < %s' % (data, ne), 'len(%s) <= %s' % (data, ne),
-                                                   'len(%s) < %s + %s' % (data, ne, es), 'len(%s) == 0' % data], i.test)]
+                                                   'len(%s) < %s + %s' % (data, ne, es), 'len(%s) == 0' % data], ge.expand(i.test))]
         if weak:
             ctx.violated('C16.S2', ge, weak[0].test, 'the whole data is returned only when `%s`: data shorter than n_excerpts * excerpt_size but longer than that is cut into excerpts' % unparse(weak[0].test))
         elif cmp_any:
@@ -259,28 +283,59 @@ def s2_excerpts(ctx):
 def p1_iter_chunks(ctx):
     repo = ctx.repo
     fi = repo.func(TR, 'BaseEphysReader.iter_chunks')
-    ok = False
-    node = None
+    verdict, node = None, None          # True holds / False violated / None not recognised
+    B = 'self.chunk_bounds'
     for f in fi.nodes(ast.For):
-        it = f.iter
-        if isinstance(it, ast.Call) and dotted(it.func) == 'zip' and len(it.args) == 2:
-            a, b = unparse(it.args[0]), unparse(it.args[1])
-            if a == 'self.chunk_bounds[:-1]' and b == 'self.chunk_bounds[1:]' and isinstance(f.target, ast.Tuple) and len(f.target.elts) == 2:
-                ys = [y for y in fi.yields() if q.contains(f, y)]
-                t0, t1 = unparse(f.target.elts[0]), unparse(f.target.elts[1])
-                ok = len(ys) == 1 and isinstance(ys[0].value, ast.Tuple) and [unparse(e) for e in ys[0].value.elts] == [t0, t1]
-                node = f
-        if isinstance(it, ast.Call) and dotted(it.func) == 'range':
-            # index form: for i in range(len(b) - 1): yield b[i], b[i + 1]
-            ys = [y for y in fi.yields() if q.contains(f, y)]
-            if len(ys) == 1 and isinstance(ys[0].value, ast.Tuple) and len(ys[0].value.elts) == 2:
-                i = unparse(f.target)
-                a, b = (unparse(e).replace(' ', '') for e in ys[0].value.elts)
-                ok = a == 'self.chunk_bounds[%s]' % i and b == 'self.chunk_bounds[%s+1]' % i and \
-                    unparse(it).replace(' ', '') in ('range(len(self.chunk_bounds)-1)', 'range(self.n_chunks)')
-                node = f
-    ctx.check(ok, 'C16.P1', fi, node or 'iter_chunks', 'iter_chunks yields the consecutive pairs (b[k], b[k+1]) of chunk_bounds in order',
-              'iter_chunks does not yield the consecutive pairs of chunk_bounds in order')
+        P = Pat(fi)
+        ys = [y for y in fi.yields() if q.contains(f, y)]
+        if len(ys) != 1 or not (isinstance(ys[0].value, ast.Tuple) and len(ys[0].value.elts) == 2):
+            continue
+        node = f
+        y0, y1 = (fi.expand(e) for e in ys[0].value.elts)
+        it = fi.expand(f.iter)
+        if P.m('zip(E_a, E_b)', it) and isinstance(f.target, ast.Tuple) and len(f.target.elts) == 2 and all(isinstance(x, ast.Name) for x in f.target.elts):
+            t0, t1 = f.target.elts[0].id, f.target.elts[1].id
+            straight = Pat().m(t0, y0) and Pat().m(t1, y1)
+            swapped = Pat().m(t1, y0) and Pat().m(t0, y1)
+            # both operands are constant slices of the bounds: operand t-th item = b[lo + step * t]; the pairs are (b[t], b[t+1]) for t = 0..n-2 exactly when
+            # the slices are b[0 or None : None or -1 : 1] and b[1 : None : 1] (zip stops at the shorter operand)
+            def sl(e):
+                if Pat().m(B, e):
+                    return (None, None, None)
+                if isinstance(e, ast.Subscript) and Pat().m(B, e.value) and isinstance(e.slice, ast.Slice):
+                    out = []
+                    for p_ in (e.slice.lower, e.slice.upper, e.slice.step):
+                        c_ = const_value(p_) if p_ is not None else None
+                        if p_ is not None and not isinstance(c_, int):
+                            return None
+                        out.append(c_)
+                    return tuple(out)
+                return None
+            s1, s2 = sl(it.args[0]), sl(it.args[1])
+            good_it = bad_it = False
+            if s1 is not None and s2 is not None:
+                good_it = s1[0] in (None, 0) and s1[1] in (None, -1) and s1[2] in (None, 1) and s2[0] == 1 and s2[1] is None and s2[2] in (None, 1)
+                bad_it = not good_it
+            if good_it and straight:
+                verdict = True
+            elif (good_it and swapped) or (bad_it and (straight or swapped)):
+                verdict = False
+        elif isinstance(f.target, ast.Name) and P.m('range(E_n)', it):
+            i = f.target.id
+            n_good = Pat().any(['range(len(%s) - 1)' % B, 'range(self.n_chunks)', 'range(%s.shape[0] - 1)' % B, 'range(%s.size - 1)' % B], it)
+            n_bad = Pat().any(['range(len(%s))' % B, 'range(len(%s) - 2)' % B, 'range(self.n_chunks - 1)', 'range(self.n_chunks + 1)'], it)
+            pair_good = Pat().m('%s[%s]' % (B, i), y0) and Pat().m('%s[%s + 1]' % (B, i), y1)
+            pair_bad = (Pat().m('%s[%s + 1]' % (B, i), y0) and Pat().m('%s[%s]' % (B, i), y1)) or (Pat().m('%s[%s]' % (B, i), y0) and Pat().any(['%s[%s]' % (B, i), '%s[%s + 2]' % (B, i)], y1))
+            if n_good and pair_good:
+                verdict = True
+            elif (n_bad and (pair_good or pair_bad)) or (n_good and pair_bad):
+                verdict = False
+    if verdict is True:
+        ctx.holds('C16.P1', fi, 'iter_chunks yields the consecutive pairs (b[k], b[k+1]) of chunk_bounds in order', node)
+    elif verdict is False:
+        ctx.violated('C16.P1', fi, node, 'iter_chunks does not yield the consecutive pairs of chunk_bounds in order')
+    else:
+        ctx.undecided('C16.P1', fi, 'the iteration of iter_chunks over chunk_bounds was not recognised', node)
 
 
 class BatchInterp(SymInterp):
